@@ -173,6 +173,21 @@ func (c10) Exec(c Case) []string {
 		case "ack":
 			h, _ := strconv.Atoi(op[1])
 			xmpp.VerifRoute(router, client, stanza.SMAnswer{H: uint(h)})
+		case "ackfail":
+			// the acknowledgement is handled while the connection is already dead: every write of the retransmission
+			// fails. The session must stay usable afterwards (the next ops run under a time limit: see below).
+			h, _ := strconv.Atoi(op[1])
+			st.mu.Lock()
+			for k := 1; k <= 64; k++ {
+				st.failAt[st.nwrite+k] = true
+			}
+			st.mu.Unlock()
+			xmpp.VerifRoute(router, client, stanza.SMAnswer{H: uint(h)})
+			st.mu.Lock()
+			for k := range st.failAt {
+				delete(st.failAt, k)
+			}
+			st.mu.Unlock()
 		default:
 			obs = append(obs, "bad-op")
 			continue
@@ -225,6 +240,11 @@ func (c10) Generate(rng *rand.Rand, tier string, st *Stats) []Case {
 		mk("corpus-raw-lookalikes", [][]string{{"sendraw", hx("<route/>")}, {"sendraw", hx("<a:b xmlns:a='x'/>")}, {"sendraw", hx("<r2/>")}, {"sendraw", hx("<answer/>")}, {"ack", "1"}, {"ack", "3"}})
 		mk("corpus-raw-blank", [][]string{{"sendraw", hx("<x/>")}, {"sendraw", hx(" \n\t ")}, {"sendraw", hx("<y/>")}, {"ack", "1"}})
 	}
+	// an acknowledgement handled on a dead connection (the retransmission cannot be written): the acknowledged stanzas
+	// are gone, the others stay held, and the session goes on working - the next sends, acknowledgements and requests
+	mk("corpus-ack-on-dead-connection", [][]string{{"sendraw", hx("<x/>")}, {"sendraw", hx("<y/>")}, {"sendraw", hx("<z/>")}, {"ackfail", "1"},
+		{"sendraw", hx("<w/>")}, {"ack", "2"}, c10op("message", "after"), {"ackfail", "0"}, {"ack", "9"}})
+	mk("corpus-ack-on-dead-connection-all", [][]string{{"sendraw", hx("<x/>")}, {"ackfail", "0"}, {"ackfail", "1"}, {"sendraw", hx("<y/>")}, {"ack", "1"}})
 	// bounded-exhaustive: all histories of length <= L over a small alphabet
 	uniq := 0
 	alpha := []func() []string{
